@@ -625,6 +625,32 @@ class Normalizer(ast.NodeTransformer):
                     self.count += 1
                     new = (ast.Tuple if node.func.id == 'tuple' else ast.List)(elts=vals, ctx=ast.Load())
                     return ast.fix_missing_locations(ast.copy_location(new, node))
+        # N28: any(C(x) for x in <literal>)  ->  C(a) or C(b) ;  all(..)  ->  C(a) and C(b)   (same short-circuit order)
+        if isinstance(node.func, ast.Name) and node.func.id in ('any', 'all') and len(node.args) == 1 and not node.keywords \
+                and isinstance(node.args[0], (ast.GeneratorExp, ast.ListComp)) and len(node.args[0].generators) == 1:
+            g = node.args[0].generators[0]
+            lit = self._literal_iter(g.iter)
+            if lit is not None and not g.is_async and len(lit.elts) >= 1 \
+                    and not any(isinstance(x, (ast.NamedExpr, ast.Lambda, ast.Yield, ast.Await)) for x in ast.walk(node.args[0])):
+                vals, ok = [], True
+                for e in lit.elts:
+                    m = {}
+                    if not _bind(g.target, e, m):
+                        ok = False
+                        break
+                    parts = [_Subst(m).visit(copy.deepcopy(t)) for t in g.ifs] + [_Subst(m).visit(copy.deepcopy(node.args[0].elt))]
+                    if node.func.id == 'any':
+                        vals.append(parts[0] if len(parts) == 1 else ast.BoolOp(op=ast.And(), values=parts))
+                    else:
+                        # all(E for x if C): elements failing C are skipped -> (not C) or E
+                        if len(parts) == 1:
+                            vals.append(parts[0])
+                        else:
+                            vals.append(ast.BoolOp(op=ast.Or(), values=[ast.UnaryOp(op=ast.Not(), operand=ast.BoolOp(op=ast.And(), values=parts[:-1]) if len(parts) > 2 else parts[0]), parts[-1]]))
+                if ok:
+                    self.count += 1
+                    res = vals[0] if len(vals) == 1 else ast.BoolOp(op=ast.Or() if node.func.id == 'any' else ast.And(), values=vals)
+                    return ast.fix_missing_locations(ast.copy_location(res, node))
         # N26: next((E(x) for x in <literal> if C(x)), d)  ->  E(a) if C(a) else (E(b) if C(b) else d)
         if isinstance(node.func, ast.Name) and node.func.id == 'next' and len(node.args) == 2 and not node.keywords \
                 and isinstance(node.args[0], ast.GeneratorExp) and len(node.args[0].generators) == 1:
@@ -1630,6 +1656,10 @@ def normalize(tree: ast.Module, inline: bool = True) -> ast.Module:
             if cp.count == before:
                 break
     n.count += cp.count
+    if cp.count:
+        # a search loop whose test went through a single-use local (`a = cand[0]; if a == x: return cand`) is in the
+        # recognised form only now
+        n.count += _search_loops(tree)
     if cp.count:
         # constants of unrolled tables have reached their uses: fold the tests they decide
         n3 = Normalizer()
